@@ -1,2 +1,160 @@
-(* placeholder, replaced below *)
+(* C14 model, part 2: what esbuild does with a use of feature f when f is
+   unsupported, and which syntax the lowered form writes.  Mirrors (abstractly:
+   per feature, not per AST) the gates of
+     internal/js_parser/js_parser_lower.go   markSyntaxFeature, markAsyncFn, lower* functions
+     internal/js_parser/js_parser_lower_class.go
+     internal/js_parser/js_parser.go         the Has(...) gates in the visitor and the regexp/template/bigint cases
+     internal/js_printer/js_printer.go       printer-level choices
+   and the runtime helper variants selected by the guards of
+     internal/runtime/runtime.go             (regenerated: V.gen.RuntimeGuardsGen, translator T7)
+   which are themselves compiled by the same parser for the same unsupported set
+   (bundler.parseRuntime).  Tied to the code by the correspondence run
+   (Harness.check_lower).  Definitions only. *)
+From Coq Require Import String.
 From V Require Import Common.Base C14.Compat.
+From V Require Export gen.RuntimeGuardsGen.
+
+(* the unsupported set *)
+Definition fset := feature -> bool.
+
+Inductive disposition :=
+  | Lowered    (* rewritten into older syntax (possibly with runtime helpers) *)
+  | Rejected   (* an error is reported *)
+  | Warned     (* a warning is reported; the construct is emptied / turned into a call *)
+  | Silent     (* emitted unchanged, no diagnostic *)
+  | NotSyntax. (* no syntax of its own: a printer, resolver or semantic switch *)
+
+Definition dispose (U : fset) (f : feature) : disposition :=
+  match f with
+  | FArrow | FClassField | FClassPrivateAccessor | FClassPrivateBrandCheck | FClassPrivateField
+  | FClassPrivateMethod | FClassPrivateStaticAccessor | FClassPrivateStaticField | FClassPrivateStaticMethod
+  | FClassStaticBlocks | FClassStaticField | FDecorators | FDynamicImport | FExponentOperator | FExportStarAs
+  | FImportAssertions | FImportAttributes | FLogicalAssignment | FNullishCoalescing | FObjectRestSpread
+  | FOptionalCatchBinding | FOptionalChain | FRegexpDotAllFlag | FRegexpLookbehindAssertions
+  | FRegexpMatchIndices | FRegexpNamedCaptureGroups | FRegexpSetNotation | FRegexpStickyAndUnicodeFlags
+  | FRegexpUnicodePropertyEscapes | FTemplateLiteral | FUnicodeEscapes | FUsing => Lowered
+  (* markAsyncFn: lowering async functions needs generators *)
+  | FAsyncAwait | FAsyncGenerator => if U FGenerator then Rejected else Lowered
+  (* for-await is only rejected when neither async functions nor generators exist *)
+  | FForAwait => if U FAsyncAwait && U FGenerator then Rejected else Lowered
+  | FBigint | FImportMeta => Warned
+  | FHashbang => Silent
+  | FArbitraryModuleNamespaceNames | FArraySpread | FClass | FConstAndLet | FDefaultArgument | FDestructuring
+  | FForOf | FGenerator | FImportDefer | FImportSource | FNestedRestBinding | FNewTarget | FObjectAccessors
+  | FObjectExtensions | FRestArgument | FTopLevelAwait => Rejected
+  | FFromBase64 | FFunctionNameConfigurable | FFunctionOrClassPropertyAccess | FInlineScript
+  | FNodeColonPrefixImport | FNodeColonPrefixRequire | FTypeofExoticObjectIsObject => NotSyntax
+  end.
+
+(* generated declarations are `let`/`const` unless those are unsupported (selectLocalKind) *)
+Definition let_or_var (U : fset) : list feature := if U FConstAndLet then [] else [FConstAndLet].
+
+(* syntax written directly by the lowering of f *)
+Definition emits_syntax (U : fset) (f : feature) : list feature :=
+  match f with
+  | FAsyncAwait => [FGenerator]
+  | FAsyncGenerator => [FGenerator]
+  | FForAwait => [FAsyncAwait]
+  | FLogicalAssignment => if U FNullishCoalescing then [] else [FNullishCoalescing]
+  | FImportMeta => let_or_var U
+  | FDynamicImport => if U FArrow then [] else [FArrow]
+  (* derived classes get `constructor(...args) { super(...args) }` or `super(...arguments)` *)
+  | FClassField => (if U FRestArgument then [] else [FRestArgument]) ++ [FArraySpread]
+  | FClassStaticField | FClassStaticBlocks | FClassPrivateStaticField | FClassPrivateStaticMethod
+  | FClassPrivateStaticAccessor => let_or_var U
+  | FDecorators => let_or_var U
+  (* `await using` awaits inside the async function the source already has *)
+  | FUsing => let_or_var U
+  | _ => []
+  end.
+
+(* runtime helpers the lowering of f calls *)
+Definition helpers_of (f : feature) : list string :=
+  match f with
+  | FAsyncAwait => ["__async"]
+  | FAsyncGenerator => ["__asyncGenerator"; "__await"; "__yieldStar"]
+  | FForAwait => ["__forAwait"]
+  | FObjectRestSpread => ["__spreadValues"; "__spreadProps"; "__objRest"; "__restKey"]
+  | FExponentOperator => ["__pow"]
+  | FDynamicImport => ["__toESM"]
+  | FClassField | FClassStaticField => ["__publicField"]
+  | FClassPrivateField | FClassPrivateStaticField | FClassPrivateAccessor | FClassPrivateStaticAccessor =>
+      ["__privateAdd"; "__privateGet"; "__privateSet"; "__privateWrapper"]
+  | FClassPrivateMethod | FClassPrivateStaticMethod => ["__privateAdd"; "__privateMethod"]
+  | FClassPrivateBrandCheck => ["__privateIn"]
+  | FDecorators => ["__decoratorStart"; "__decorateElement"; "__runInitializers"; "__decoratorMetadata";
+                    "__decorateClass"; "__decorateParam"; "__publicField"; "__privateAdd"; "__privateGet"; "__privateSet"]
+  | FUsing => ["__using"; "__callDispose"]
+  | FTemplateLiteral => ["__template"]
+  | _ => []
+  end%string.
+
+Fixpoint find_helper (name : string) (l : list rt_helper) : option rt_helper :=
+  match l with
+  | [] => None
+  | h :: r => if String.eqb name (fst (fst h)) then Some h else find_helper name r
+  end.
+
+(* the variant of a guard that Source(U) selects *)
+Definition select (U : fset) (g : rt_guard) : rt_variant :=
+  let '(needs, v1, v2) := g in if forallb (fun x => negb (U x)) needs then v1 else v2.
+
+(* the text of one helper for U: unconditional part plus selected variants *)
+Definition helper_own (U : fset) (h : rt_helper) : rt_variant :=
+  let '(_, base, guards) := h in
+  fold_left (fun acc g => let v := select U g in (fst acc ++ fst v, snd acc ++ snd v)) guards base.
+
+(* syntax features of a helper together with the helpers it refers to *)
+Fixpoint helper_feats (U : fset) (fuel : nat) (name : string) : list feature :=
+  match fuel with
+  | O => []
+  | S n =>
+      match find_helper name runtime_helpers with
+      | None => []
+      | Some h => let v := helper_own U h in fst v ++ flat_map (helper_feats U n) (snd v)
+      end
+  end.
+
+Definition helper_fuel : nat := 6.
+
+Definition emits (U : fset) (f : feature) : list feature :=
+  emits_syntax U f ++ flat_map (helper_feats U helper_fuel) (helpers_of f).
+
+Definition rank (f : feature) : Z :=
+  match f with
+  | FDecorators => 5
+  | FUsing | FForAwait | FAsyncGenerator => 4
+  | FAsyncAwait | FObjectRestSpread | FClassField | FClassPrivateAccessor | FClassPrivateBrandCheck
+  | FClassPrivateField | FClassPrivateMethod | FClassPrivateStaticAccessor | FClassPrivateStaticField
+  | FClassPrivateStaticMethod | FClassStaticBlocks | FClassStaticField | FDynamicImport | FTemplateLiteral
+  | FExponentOperator => 3
+  | FLogicalAssignment => 2
+  | FNullishCoalescing | FOptionalChain => 1
+  | _ => 0
+  end.
+
+(* generated code uses array spread without asking *)
+Definition base_ok (U : fset) : bool := negb (U FArraySpread).
+
+(* iterate the lowering: the features whose syntax is finally written for a use of f *)
+Fixpoint residual (U : fset) (fuel : nat) (f : feature) : list feature :=
+  if U f then
+    match dispose U f with
+    | Lowered => match fuel with O => [f] | S n => flat_map (residual U n) (emits U f) end
+    | Warned => []          (* emptied / turned into a call *)
+    | _ => [f]
+    end
+  else [f].
+
+Definition residual_fuel : nat := 7.
+
+Inductive outcome := Error | Ok (out : list feature).
+
+Definition is_rejected (d : disposition) : bool := match d with Rejected => true | _ => false end.
+
+(* a program is abstracted by the list of features it uses *)
+Definition compile (U : fset) (prog : list feature) : outcome :=
+  if existsb (fun f => U f && is_rejected (dispose U f)) prog then Error
+  else Ok (flat_map (residual U residual_fuel) prog).
+
+Definition fset_of (l : list feature) : fset := fun f => existsb (feature_eqb f) l.
